@@ -65,6 +65,7 @@ type Hub struct {
 	muxPairingUpdate sync.Mutex
 
 	muxCon        sync.Mutex
+	muxConKeep    sync.Mutex // the double connection decision and the registration of the kept connection are one step
 	muxConAttempt sync.Mutex
 	muxReg        sync.Mutex
 	muxMdns       sync.Mutex
